@@ -59,11 +59,23 @@ def from_u16(units):
 
 # ---------------------------------------------------------------- message encoding for drv_fmt
 
+class UInt(int):
+    """an attribute value held as QVariant(uint)"""
+
+
+class ULongLong(int):
+    """an attribute value held as QVariant(qulonglong)"""
+
+
 def enc_value(v):
     if v is None:
         return "N"
     if isinstance(v, bool):
         return "B %d" % (1 if v else 0)
+    if isinstance(v, UInt):
+        return "u %d" % v
+    if isinstance(v, ULongLong):
+        return "U %d" % v
     if isinstance(v, int):
         return "I %d" % v
     if isinstance(v, float):
